@@ -5,6 +5,8 @@ use crate::types::*;
 pub const S_INT: [f64; 5] = [1.0, 0.0, -1.0, 3.0, -2.0];
 /// three levels, for deep sequences (balanced windows: the mean equals the newest value, ...)
 pub const S_NARROW: [f64; 3] = [2.0, 1.0, 3.0];
+/// distinct values 1e-10..5e-10 (relative) apart: far above rounding, far below any tick - a "same value, skip the update" guard with a relative epsilon
+pub const S_NEAR: [f64; 5] = [1.0, 1.0000000001, 0.9999999998, 1.0000000005, 2.0];
 pub const S_POS: [f64; 4] = [1.0, 2.0, 4.0, 7.0];
 pub const S_POS5: [f64; 5] = [1.0, 2.0, 4.0, 7.0, 2.5];
 pub const S_ROUGH: [f64; 7] = [0.1, -0.3, 7.7, 1e-3, 16_777_217.0, 1e12, -1e12];
@@ -136,7 +138,8 @@ pub fn scale_bars(bs: &[Bar], c: f64) -> Vec<Bar> {
     bs.iter().map(|b| Bar { o: b.o * c, h: b.h * c, l: b.l * c, c: b.c * c, v: b.v }).collect()
 }
 
-pub const MULT: [f64; 4] = [2.0, 0.0, 0.5, 3.0];
+/// 2.618 and 0.1 are not representable in f32 (a multiplier stored narrower shows only there)
+pub const MULT: [f64; 6] = [2.0, 0.0, 0.5, 3.0, 2.618, 0.1];
 
 pub const P_BIG: [usize; 16] = [6, 7, 8, 13, 16, 31, 32, 33, 64, 100, 255, 256, 257, 512, 1000, 1024];
 
